@@ -5506,6 +5506,9 @@ GENERATORS["vinsn"] = gen_vinsn
 def run(names):
     """returns (ok, log)"""
     logs, ok = [], True
+    if "pre" in names and "pre" not in GENERATORS:
+        import gen_pre                      # tools/gen_pre.py: grisubal pre-processing (detect_overlaps, grid sizing) -> Gen/PreProc.lean
+        GENERATORS["pre"] = gen_pre.gen_pre
     for n in names:
         g = GENERATORS.get(n)
         if g is None:
